@@ -412,7 +412,14 @@ func (c *fctx) stmts(list []ast.Stmt, k *cont, n int) (string, error) {
 					}
 				}
 			}
-			v, err := c.expr(r)
+			var v lx
+			var err error
+			if id, ok := stripParens(r).(*ast.Ident); ok && id.Name == "nil" && c.info.Uses[id] == types.Universe.Lookup("nil") {
+				z, zerr := c.zeroOf(c.res[i])
+				v, err = lx{s: z, t: c.res[i]}, zerr
+			} else {
+				v, err = c.expr(r)
+			}
 			if err != nil {
 				return "", err
 			}
